@@ -270,6 +270,13 @@ def run(ctx):
     scope.rule_join_current_scope(ctx, "R2.4")
     scope.rule_memo_scope_free(ctx, "R2.4m")
     scope.rule_lazy_inside_scope(ctx, "R2.8")
+    # R2.10: a half-consumed error iterator keeps the scopes it entered on the stack; nothing else is validated meanwhile
+    scope.rule_no_parked_iterators(ctx, "R2.10")
+    # R2.11: "#/..." designates a place in the schema in hand: each resolver files its own document in a store of its own, so
+    # building a second resolver (even from the first one's store) cannot redirect the first one's references
+    from .c18 import rule_per_validator_resolver
+    rule_per_validator_resolver(ctx, "R2.11")
+    scope.rule_scope_entered(ctx, "R2.12")
     # R2.9: "obtainable through a handler": a handler registered for the scheme is what retrieves, before any built-in retrieval
     from .c15 import rule_handler_selection
     rule_handler_selection(ctx, "R2.9")
